@@ -240,7 +240,14 @@ func (t *Terminal) accepting(fn *ssa.Function) bool {
 	if i < 0 {
 		return true
 	}
-	return isNilConst(t.Vals[i])
+	if isNilConst(t.Vals[i]) {
+		return true
+	}
+	// the returned error is a value the path has already tested against nil (single-exit style: `return err`)
+	if isNil, known := t.eqFact(t.Vals[i], nilOf(t.Vals[i].Type())); known && isNil {
+		return true
+	}
+	return false
 }
 
 // errKnownNonNil: the returned error is non-nil on this path (fresh error, typed error value, or fact err != nil).
